@@ -19,7 +19,7 @@ ITEMS = {
     "plainiter": ["%s-0", "%s-1"],
 }
 LETTERS = [("next", 0), ("next", 1), ("close", 0), ("close", 1), ("release", 0), ("release", 1), ("reconnect", 0), ("reconnect", 1),
-           ("hk",), ("tick", 10), ("tick", 25), ("tick", 40), ("ping", 0), ("ping", 1), ("break", 0), ("break", 1)]
+           ("hk",), ("tick", 10), ("tick", 25), ("tick", 40), ("ping", 0), ("ping", 1), ("break", 0), ("break", 1), ("steal", 0), ("steal", 1)]
 
 
 class MStream:
@@ -74,7 +74,7 @@ def play(cfg, hist, V, st):
     """replays a history on a fresh world, comparing every step with the model; returns (model key, real table digest) or None if diverged"""
     from vf.syncworld import SyncWorld
     from vf import targets, sched as S
-    from Pyro5 import client, errors
+    from Pyro5 import client, errors, core
     from Pyro5.callcontext import current_context
     import uuid
     S.TimeShim.fallback_clock = 1000.0
@@ -181,6 +181,48 @@ def play(cfg, hist, V, st):
                     s.alive = False
                     m.housekeeping()
                 s.client_closed = True
+            elif op == "steal":
+                # the other connection asks the daemon for the next item of a stream it does not own (stream ids are not secrets between
+                # clients of one application): the item goes to the asker, the server-side iterator advances like for any fetch
+                si = step[1]
+                if si >= len(iters) or iters[si] is None or cfg["nproxies"] < 2:
+                    continue
+                s = m.streams[si]
+                thief = 1 - cfg["streams"][si][1]
+                if m.connected[thief] is not True:
+                    continue
+                try:
+                    got = ("item", proxies[thief]._pyroInvoke("get_next_stream_item", [iters[si].streamId], {}, objectId=core.DAEMON_NAME))
+                except StopIteration:
+                    got = ("stop", None)
+                except errors.ConnectionClosedError as x:
+                    got = ("closed", str(x)[:50])
+                except errors.PyroError as x:
+                    got = ("pyroerror", str(x)[:50])
+                except ValueError as x:
+                    got = ("genexc", str(x))
+                except Exception as x:
+                    got = ("other", type(x).__name__ + ":" + str(x)[:50])
+                if not s.alive:
+                    w0 = ("pyroerror", None)
+                else:
+                    if s.owner is None:
+                        s.owner = thief
+                        s.linger_since = None
+                    if s.pos >= len(s.items):
+                        w0 = ("stop", None)
+                        s.alive = False
+                    elif s.items[s.pos] is ValueError:
+                        w0 = ("genexc", "gen-failure-%s" % s.tag)
+                        s.alive = False
+                        s.pos += 1
+                    else:
+                        w0 = ("item", s.items[s.pos] % s.tag)
+                        s.pos += 1
+                m.housekeeping()
+                if not (got[0] == w0[0] and (w0[1] is None or got[1] == w0[1])):
+                    V("fetch-by-other-connection-differs|%s-instead-of-%s" % (got[0], w0[0]), "stream %d fetched through the other connection: got %r, model expects %r" % (si, got, w0), hist)
+                    ok = False
             elif op == "next":
                 si = step[1]
                 if si >= len(iters) or iters[si] is None:
@@ -315,7 +357,9 @@ def letters_for(cfg):
     npx = cfg["nproxies"]
     out = []
     for l in LETTERS:
-        if l[0] in ("next", "close") and l[1] >= ns:
+        if l[0] in ("next", "close", "steal") and l[1] >= ns:
+            continue
+        if l[0] == "steal" and npx < 2:
             continue
         if l[0] in ("release", "reconnect", "ping", "break") and l[1] >= npx:
             continue
